@@ -38,6 +38,7 @@ type recFileEventer struct {
 	conn int
 }
 
+//go:norace
 func (w *world) startAttachment() {
 	h := &attHarness{w: w}
 	w.att = h
@@ -85,6 +86,7 @@ func (r *recFileEventer) OnEvent(p *attachment.PackageProgress) {
 	r.w.rec(Ev{K: KFile, C: r.conn, Stage: a.Stage, Ref: len(r.w.attEvs), Err: a.Err, ID: a.MsgID, G: simrt.CurName()})
 }
 
+//go:norace
 func sortStrings(s []string) {
 	for i := 1; i < len(s); i++ {
 		for j := i; j > 0 && s[j] < s[j-1]; j-- {
